@@ -64,6 +64,9 @@ let gen_history (seed : int) (nops : int) (ndocs : int) (profile : int) : string
     let r = match handles.(h) with Some i -> i | None -> N0 in
     let k = pick keys in
     let idx = pick [0; 0; 1; 1; 2; 3; 5] in
+    (* read / remove far beyond the end, at and around the powers of two where an index could be truncated to a
+       narrower integer (8-, 16-, 32-bit): nothing there *)
+    let idx_far = if rand 6 = 0 then pick [255; 256; 257; 65535; 65536; 65537; 4294967296; 4294967297] else idx in
     let choice = rand (if profile = 1 then 86 else 100) in
     let (line, o, bind) =
       if choice < 12 then (Printf.sprintf "set %d %s" h (dump_scalar (let x = rand_scalar () in state := !state; x)), None, None)
@@ -79,13 +82,13 @@ let gen_history (seed : int) (nops : int) (ndocs : int) (profile : int) : string
       else if choice < 22 then (Printf.sprintf "clear %d" h, OClear r, None)
       else if choice < 32 then (Printf.sprintf "addnew %d %d" h nhd, OAddNew r, Some nhd)
       else if choice < 40 then (Printf.sprintf "addval %d %s" h (dump_scalar x), OAddVal (r, x), None)
-      else if choice < 45 then (Printf.sprintf "getelem %d %d %d" h idx nhd, OGetElem (r, nat_of_int idx), Some nhd)
+      else if choice < 45 then (Printf.sprintf "getelem %d %d %d" h idx_far nhd, OGetElem (r, nat_of_int (min idx_far 70000)), Some nhd)
       else if choice < 52 then (Printf.sprintf "makeelem %d %d %d" h idx nhd, OMakeElem (r, nat_of_int idx), Some nhd)
       else if choice < 57 then (Printf.sprintf "setelem %d %d %s" h idx (dump_scalar x), OSetElem (r, nat_of_int idx, x), None)
       else if choice < 62 then (Printf.sprintf "getmember %d %s %d" h (hex_of_bytes k) nhd, OGetMember (r, k), Some nhd)
       else if choice < 70 then (Printf.sprintf "makemember %d %s %d" h (hex_of_bytes k) nhd, OMakeMember (r, k), Some nhd)
       else if choice < 76 then (Printf.sprintf "setmember %d %s %s" h (hex_of_bytes k) (dump_scalar x), OSetMember (r, k, x), None)
-      else if choice < 80 then (Printf.sprintf "rmidx %d %d" h idx, ORemoveIdx (r, nat_of_int idx), None)
+      else if choice < 80 then (Printf.sprintf "rmidx %d %d" h idx_far, ORemoveIdx (r, nat_of_int (min idx_far 70000)), None)
       else if choice < 84 then (Printf.sprintf "rmkey %d %s" h (hex_of_bytes k), ORemoveKey (r, k), None)
       else if choice < 86 then begin
         let t = pick texts in
@@ -171,7 +174,7 @@ let run_script (ndocs : int) (script : string) : string =
       | w :: rest when String.length w > 0 && w.[0] = '@' -> (String.sub w 1 (String.length w - 1), List.rev rest)
       | _ -> ("", toks) in
     let hid s = match handles.(int_of_string s) with Some i -> i | None -> n_of_int 999999 in
-    let nat s = nat_of_int (int_of_string s) in
+    let nat s = nat_of_int (min (int_of_string s) 70000) in   (* no array of a history is that long: same meaning, bounded unary number *)
     let (o, bind) : op * int option = match toks with
       | ["set"; h; x] -> (OSet (hid h, scalar_of_dump x), None)
       | ["toarr"; h] -> (OToArr (hid h), None)
